@@ -82,6 +82,9 @@ type SmtpScenario struct {
 	// CtxCancelInMsg = k > 0: the context handed to DialAndSendWithContext is cancelled while the body of
 	// the k-th message is being produced (a context meant for the dial that runs out during a send)
 	CtxCancelInMsg int `json:"ctx_cancel_in_msg,omitempty"`
+	// Warmup: before the run that is looked at, the SAME Client performs this one against another server
+	// incarnation (only Caps, Script and Msgs of it are used; not with TLS). Nothing of it may carry over.
+	Warmup *SmtpScenario `json:"warmup,omitempty"`
 }
 
 type MsgResult struct {
@@ -265,6 +268,23 @@ func RunScenario(sc *SmtpScenario) (run *SmtpRun, msgs []*mail.Msg) {
 	}
 	for _, f := range later {
 		f(client)
+	}
+	if sc.Warmup != nil && sc.TLS == "" {
+		mainSrv := srv
+		srv = NewRefServer(sc.Warmup.Caps, sc.Warmup.Script)
+		var wmsgs []*mail.Msg
+		for i, sm := range sc.Warmup.Msgs {
+			wmsgs = append(wmsgs, buildSmtpMsg(100+i, sm))
+		}
+		watchdog(30*time.Second, func() {
+			defer func() { _ = recover() }()
+			_ = client.DialAndSendWithContext(context.Background(), wmsgs...)
+		})
+		if conn != nil {
+			_ = conn.Close()
+		}
+		conn = nil
+		srv = mainSrv
 	}
 	// the caller's context: none, or one with a deadline of its own far beyond the configured timeout (the
 	// configured timeout still bounds every network operation)
